@@ -317,6 +317,16 @@ def explore_prefix(index, reg: Registry, ci: ContractInfo, prop: str, prefix, kn
         except RecursionError:
             status = 'unsupported'
             rep.unsupported.append('python recursion limit in the interpreter')
+        except (IndexError, KeyError, TypeError, AttributeError, ValueError, AssertionError) as e:
+            # a code shape the interpreter's own rules did not foresee: the function is outside the subset (its bounded stand-in
+            # decides), not a checker crash
+            status = 'unsupported'
+            if os.environ.get('PYVC_DEBUG'):
+                traceback.print_exc()
+            msg = f'interpreter limitation ({type(e).__name__}: {e}) (in {I.cur_func}:{I.cur_line})'
+            if msg not in seen_unsupported:
+                seen_unsupported.add(msg)
+                rep.unsupported.append(msg)
         rep.paths += 1
         for i in range(max(len(dec), len(prefix)), len(I.decisions)):
             if i < len(I.arities):
